@@ -9,7 +9,7 @@ from __future__ import annotations
 
 import random
 
-from .. import mslab, msmodel as ms
+from .. import mslab, msmodel as ms, textgen
 from ..core import Result, split
 
 LEVEL = "exploration"
@@ -53,8 +53,16 @@ def reply_corpus(rng, n):
     """-> list of (op, args, server bytes for that op)"""
     out = []
     how = lambda: rng.choice(["quoted", "literal"])  # noqa
+
+    def drawn(pool, lo=0, hi=10, lines=1):
+        # W-TEXT: a quarter of the bodies, names and texts come from broad character classes
+        if rng.random() >= 0.25:
+            return rng.choice(pool)
+        return "".join(textgen.text(rng, lo, hi) + (rng.choice(["\r\n", "\n", ""]) if lines > 1 else "")
+                       for _ in range(rng.randint(1, lines))).encode("utf-8")
+
     def st(kind):
-        return ms.status(kind, rng.choice(CODES), rng.choice(TEXTS), how())
+        return ms.status(kind, rng.choice(CODES), drawn(TEXTS), how())
     for _ in range(n):
         op = rng.choice(["getscript", "getscript", "listscripts", "listscripts", "capability",
                          "putscript", "checkscript", "deletescript", "renamescript",
@@ -64,7 +72,7 @@ def reply_corpus(rng, n):
             args = ("x",)
             body = b""
             if kind == "OK":
-                body = ms.enc_string(rng.choice(BODIES), rng.choice(["literal", "literal",
+                body = ms.enc_string(drawn(BODIES, lines=5), rng.choice(["literal", "literal",
                                                                      "quoted"])) + ms.CRLF
             out.append((op, args, body + st(kind)))
         elif op == "listscripts":
@@ -72,6 +80,10 @@ def reply_corpus(rng, n):
             body = b""
             if kind == "OK":
                 names = rng.sample(NAMES, rng.randint(0, 4))
+                if names and rng.random() < 0.25:
+                    nm = drawn(NAMES, lo=1, hi=8)
+                    if nm not in names:
+                        names[rng.randrange(len(names))] = nm
                 act = rng.choice(names) if names and rng.random() < 0.7 else None
                 for nm in names:
                     body += ms.enc_string(nm, how())
